@@ -1,6 +1,8 @@
 """C01 / C02 correspondence + oracle: real Component index bookkeeping vs the Lean model `Amisc.activate`."""
 from __future__ import annotations
 
+import itertools
+
 import numpy as np
 
 from harness.lib import core
@@ -350,6 +352,43 @@ def run_lifecycle(ctx: core.Ctx, res: core.Result, n: int):
                                          'input': {'box': meta, 'data_fidelity_after_first_activation': new_df, 'history': list(hist3)},
                                          'observed': {'active': len(A3), 'box': len(ic.full_box(lim3))}})
             res.hit('maxima-re-declared-after-first-activation')
+        # (D) an exception ESCAPES an activation (a vectorised model that crashes once; the caller catches it and goes on): the
+        # failed request leaves sets and weights exactly as they were (Lean: C13.crash_preserves_index_state), repeating the request
+        # succeeds, and from then on the component is step by step the fault-free twin
+        trip = {'armed': False}
+        compd, twind, histd = ic.make_component(na, nd, ns, limits, trip=trip), ic.make_component(na, nd, ns, limits), []
+        for _ in walk(compd, rng.randint(1, 4), histd):
+            twind.activate_index(*ic.split(tuple(histd[-1]), na))
+        candsd = sorted(compd.candidate_set)
+        if candsd:
+            rq = rng.choice(candsd)
+            before = ic.canon_state(compd)
+            trip['armed'] = True
+            try:
+                compd.activate_index(*rq)
+            except RuntimeError:
+                pass
+            fired, trip['armed'] = trip.pop('fired', False), False
+            infod = {'box': meta, 'history': list(histd), 'request_during_which_the_model_crashed_once': list(rq[0]) + list(rq[1])}
+            if fired:
+                if ic.canon_state(compd) != before:
+                    res.failures.append({'kind': 'failed-request-changed-sets-or-weights', 'input': infod,
+                                         'observed': ic.canon_state(compd), 'expected': before})
+                else:
+                    compd.activate_index(*rq); twind.activate_index(*rq)
+                    histd.append(list(rq[0]) + list(rq[1]))
+                    okd = True
+                    for first in itertools.chain(['first'], walk(compd, rng.randint(1, 4), histd)):
+                        if first != 'first':
+                            twind.activate_index(*ic.split(tuple(histd[-1]), na))
+                        msg = ic.oracle_c01(compd) or ic.oracle_c02(compd, limits)
+                        if msg or ic.canon_state(compd) != ic.canon_state(twind):
+                            res.failures.append({'kind': 'state-after-a-caught-model-crash-differs-from-fault-free-twin',
+                                                 'input': {**infod, 'history_after': list(histd)},
+                                                 'observed': msg or ic.canon_state(compd), 'expected': ic.canon_state(twind)})
+                            okd = False
+                            break
+                res.hit('exception-escaping-an-activation')
         res.case(('lifecycle', meta, tuple(map(tuple, hist1 + hist2 + histb + histt))), True,
                  {'box': meta, 'clear': [hist1, hist2], 'hand_over': [histb, histt]})
 
